@@ -39,7 +39,7 @@ func c01Resolutions(r *rng, o spec.Options) []spec.Resolution {
 
 func (cx *Ctx) runC01() {
 	nSpecs := cx.count(4000, 300000)
-	gc := genCfg{allowRandomGreedy: true, nastyPct: 12, multiPct: 25, bigPct: 6}
+	gc := genCfg{allowRandomGreedy: true, nastyPct: 12, multiPct: 25, bigPct: 6, veryWidePct: 25, extremePct: 6}
 	known := cx.replayKnown()
 	corpusN := cx.runCorpus()
 
